@@ -163,10 +163,7 @@ func vslotBytes(k int) []byte {
 // remaining separators are dropped too (the signature itself never occurs in these scripts).
 func refScriptCode(ops [][]byte, lastSep int, legacy bool) []byte {
 	var out []byte
-	start := 0
-	if lastSep > 0 {
-		start = lastSep + 1
-	}
+	start := lastSep + 1
 	for i := start; i < len(ops); i++ {
 		if legacy && len(ops[i]) == 1 && ops[i][0] == bscript.OpCODESEPARATOR {
 			continue
@@ -180,16 +177,23 @@ type vsigEnv struct {
 	th     *thread
 	tx     *bt.Tx
 	ops    [][]byte
-	value  uint64
-	forkid bool
+	value   uint64
+	forkid  bool
+	lastSep int // index of the last executed OP_CODESEPARATOR, -1 if none
+	sigMask scriptflag.Flag
 }
 
 // vsigThread: a thread about to execute the final instruction (a signature opcode) of a locking
 // script made of up to S symbolic slots; the separator position is whatever executing the script
 // up to that instruction would have recorded (any separator among the slots, or none).
 func vsigThread(sigOp byte) *vsigEnv {
-	flags := vflags() &^ scriptflag.UTXOAfterGenesis
-	after := vnondetBool("aftergenesis")
+	// only the signature-related flags matter to these opcodes
+	mask := scriptflag.StrictMultiSig | scriptflag.VerifyNullFail | scriptflag.EnableSighashForkID | scriptflag.VerifyStrictEncoding
+	if sigOp == bscript.OpCHECKSIG || sigOp == bscript.OpCHECKSIGVERIFY {
+		mask |= scriptflag.VerifyDERSignatures | scriptflag.VerifyLowS
+	}
+	flags := vflags() & mask
+	after := vparam("ERA", 1) == 1 && vnondetBool("aftergenesis")
 	if after {
 		flags |= scriptflag.UTXOAfterGenesis
 	}
@@ -207,18 +211,25 @@ func vsigThread(sigOp byte) *vsigEnv {
 	}
 	ops = append(ops, []byte{sigOp})
 	script = append(script, sigOp)
+	sigAt := len(ops) - 1
+	// one more instruction after the signature opcode (still part of the script code)
+	if vnondetBool("trailing") {
+		k := vnondetLen("trailing-slot", 0, 2)
+		ops = append(ops, vslotBytes(k))
+		script = append(script, vslotBytes(k)...)
+	}
 	tx := &bt.Tx{Version: vnondetU32("version"), LockTime: vnondetU32("locktime")}
-	nIn := vnondetLen("nin", 1, 2)
+	nIn := 2
 	for i := 0; i < nIn; i++ {
 		in := &bt.Input{PreviousTxOutIndex: vnondetU32("vout"), SequenceNumber: vnondetU32("seq")}
 		_ = in.PreviousTxIDAdd(vnondetBytes("txid", 32, 32))
 		tx.Inputs = append(tx.Inputs, in)
 	}
-	if vnondetBool("with-output") {
-		ls := bscript.Script(vnondetBytes("outscript", 0, 1))
+	{
+		ls := bscript.Script(vnondetBytes("outscript", 1, 1))
 		tx.Outputs = append(tx.Outputs, &bt.Output{Satoshis: vnondetU64("outsats"), LockingScript: &ls})
 	}
-	idx := vnondetLen("idx", 0, nIn-1)
+	idx := 1
 	value := vnondetU64("spent")
 	th := &thread{flags: flags, cfg: &beforeGenesisConfig{}, elseStack: &nopBoolStack{}, debug: &nopDebugger{}, state: &nopStateHandler{}}
 	if after {
@@ -233,17 +244,20 @@ func vsigThread(sigOp byte) *vsigEnv {
 	ps, err := th.scriptParser.Parse(&script)
 	vassume(err == nil)
 	th.scripts = []ParsedScript{{}, ps}
-	th.scriptIdx, th.scriptOff = 1, len(ps)-1
+	th.scriptIdx, th.scriptOff = 1, sigAt
 	th.dstack = newStack(th.cfg, false)
 	th.astack = newStack(th.cfg, false)
-	// last executed separator: any of the separator slots, or none
-	if len(sepAt) > 0 {
-		c := vnondetLen("lastsep", 0, len(sepAt))
-		if c > 0 {
-			th.lastCodeSep = sepAt[c-1]
-		}
+	// the separators before the signature opcode have all been executed: run them for real so that
+	// the thread records whatever the implementation records
+	lastSep := -1
+	for _, p := range sepAt {
+		th.scriptOff = p
+		vassume(th.executeOpcode(ps[p]) == nil)
+		lastSep = p
 	}
-	return &vsigEnv{th: th, tx: tx, ops: ops, value: value, forkid: flags&scriptflag.EnableSighashForkID != 0}
+	th.scriptOff = sigAt
+	th.numOps = 0
+	return &vsigEnv{th: th, tx: tx, ops: ops, value: value, forkid: flags&scriptflag.EnableSighashForkID != 0, lastSep: lastSep}
 }
 
 func vkey(tag string) (*bec.PrivateKey, []byte) {
@@ -255,7 +269,7 @@ func vkey(tag string) (*bec.PrivateKey, []byte) {
 
 // vhashType: one of the six standard types, with the FORKID bit exactly when the flag demands it.
 func vhashType(forkid bool) byte {
-	ht := byte(vStdTypes[vnondetLen("hashtype", 0, 5)])
+	ht := byte([]sighash.Flag{sighash.All, sighash.Single | sighash.AnyOneCanPay, sighash.None}[vnondetLen("hashtype", 0, vparam("HT", 1))])
 	if forkid {
 		ht |= byte(sighash.ForkID)
 	}
@@ -264,7 +278,7 @@ func vhashType(forkid bool) byte {
 
 func (e *vsigEnv) refHash(ht byte) []byte {
 	legacy := ht&0x40 == 0
-	sc := refScriptCode(e.ops, e.th.lastCodeSep, legacy)
+	sc := refScriptCode(e.ops, e.lastSep, legacy)
 	return refSigHash(e.tx, e.th.inputIdx, sc, e.value, ht)
 }
 
